@@ -462,7 +462,7 @@ func rethrow(pv any, depth int) {
 }
 
 func TestPropPoller(t *testing.T) {
-	stats.Check(t, stats.Budget{Quick: 100, Thorough: 800},
+	stats.Check(t, stats.Budget{Quick: 70, Thorough: 800},
 		"the real preconfirmed.Poller (Run under testing/synctest, one ticker period per tick action) over a real Blockchain and a harness sequencer (DataSource) holding up to 5 pre-confirmed blocks: reveal more txs of the newest block (delta), extend it, open 1-3 new blocks (backfill), new round at the newest block or below it, head advance finalising the sequencer's blocks, head revert (node-local or sequencer reorg), not-at-tip phases, one-shot feeder faults (latest / by-number / class), NoChange with or without block number; readers take and keep views between ticks. Oracles: after a fault-free tick at the tip the stored chain equals what the sequencer shows (closed blocks carry all their class definitions); otherwise only realignment; plus all view oracles of the storage machine (shape, immutability fingerprint, lookups, overlay vs ref.State). Non-trivial = a non-empty view held across a later mutation of one of its slots or a head move",
 		func(rt *rapid.T, c *stats.Case) {
 			inBubble(t, func() {
